@@ -116,7 +116,8 @@ class Simulator:
         for time_ in times:
             if time_ not in self.events_dict[register_name]:
                 self.events_dict[register_name][time_] = []
-            self.events_dict[register_name][time_].append(event_hook)
+            if event_hook not in self.events_dict[register_name][time_]:
+                self.events_dict[register_name][time_].append(event_hook)
 
     def _add_market(self, market: Market, group_name: Optional[str] = None) -> None:
         """add market to the simulator. (Usually, this is called from runner.)
